@@ -479,6 +479,40 @@ Proof.
     split; [exact Hcache|]. split; [destruct kill; reflexivity|reflexivity].
 Qed.
 
+(* ---------------------------------------------------------------- value arithmetic is non-negative *)
+Lemma exp10_pos i s : exp10_fx i = Ok s -> 0 < s.
+Proof.
+  unfold exp10_fx. destruct ((0 <=? i) && (i <? Z.of_nat (length EXP_10_I80F48))) eqn:E; [|discriminate].
+  intros H. apply Ok_inj in H. subst s.
+  assert (Hall : forallb (fun x => 0 <? x) EXP_10_I80F48 = true) by (vm_compute; reflexivity).
+  rewrite forallb_forall in Hall.
+  assert (Hin : In (nth (Z.to_nat i) EXP_10_I80F48 0) EXP_10_I80F48) by (apply nth_In; lia).
+  specialize (Hall _ Hin). lia.
+Qed.
+
+Lemma calc_value_nonneg amount price dec w v :
+  0 <= amount -> 0 <= price -> 0 <= w -> calc_value amount price dec (Some w) = Ok v -> 0 <= v.
+Proof.
+  intros Ha Hp Hw. unfold calc_value. destruct (amount =? 0); [intros H; apply Ok_inj in H; lia|].
+  intros H. apply bind_ok in H as (sf & Hsf & H). apply exp10_pos in Hsf.
+  apply bind_ok in H as (wa & Hwa & H).
+  destruct (cmul amount w) as [x|e] eqn:E; [|discriminate]. apply Ok_inj in Hwa. subst x.
+  apply cmul_inv in E as [-> _].
+  apply bind_ok in H as (v1 & Hv1 & H). apply math_ok, cmul_inv in Hv1 as [-> _].
+  pose proof ONE_pos as HO.
+  assert (0 <= amount * w / ONE) by (apply Z.div_pos; nia).
+  assert (0 <= amount * w / ONE * price / ONE) by (apply Z.div_pos; nia).
+  apply math_ok, cdiv_inv_nonneg in H as [_ H]; lia.
+Qed.
+Lemma calc_amount_nonneg value price dec v :
+  0 <= value -> 0 < price -> calc_amount value price dec = Ok v -> 0 <= v.
+Proof.
+  intros Hv Hp. unfold calc_amount. intros H. apply bind_ok in H as (sf & Hsf & H). apply exp10_pos in Hsf.
+  apply bind_ok in H as (v1 & Hv1 & H). apply math_ok, cmul_inv in Hv1 as [-> _].
+  pose proof ONE_pos as HO. assert (0 <= value * sf / ONE) by (apply Z.div_pos; nia).
+  apply math_ok, cdiv_inv_nonneg in H as [_ H]; lia.
+Qed.
+
 (* ---------------------------------------------------------------- liquidation *)
 Definition liquidate_facts (w : hworld) (liqor liqee ab lb : nat) (amount : Z)
     (ha hl ha' hl' : hbank) (ee er ee3 er3 : hacct) : Prop :=
@@ -491,7 +525,7 @@ Definition liquidate_facts (w : hworld) (liqor liqee ab lb : nat) (amount : Z)
     accrue_interest (hb_b ha) (hw_pf w) (hw_now w) = Ok ba1 /\
     accrue_interest (hb_b hl) (hw_pf w) (hw_now w) = Ok bl1 /\
     nth_res liqor (set_nth liqee ee1 (hw_accts w)) = Ok er0 /\
-    usub q_liq q_fin = Ok ins_fee /\ 0 <= ins_fee /\
+    usub q_liq q_fin = Ok ins_fee /\ 0 <= ins_fee /\ 0 <= q_fin /\
     (* leg 1: liquidator pays the liability *)
     wrapper_find_or_create (bank_pk lb) bl1 (ha_la er0) (hw_now w) = Ok (i1, la1) /\ nth_res i1 la1 = Ok b1 /\
     decrease_balance bl1 b1 (t64 w) q_liq DecBypassBorrowLimit = Ok (bl2, b1') /\
@@ -535,11 +569,18 @@ Proof.
   set (w1 := put_hacct (put_hbank (put_hbank w ab (set_hb_b ba1 ha)) lb (set_hb_b bl1 hl)) liqee (sort_acct ee)) in H.
   apply bind_ok in H as (u11 & _ & H). apply bind_ok in H as (ps & _ & H).
   apply bind_ok in H as ([[pre_health x1] x2] & _ & H).
-  apply bind_ok in H as (u12 & _ & H). apply bind_ok in H as (ap & _ & H). apply bind_ok in H as (u13 & _ & H).
-  apply bind_ok in H as (u14 & _ & H). apply bind_ok in H as (lp & _ & H). apply bind_ok in H as (u15 & _ & H).
-  apply bind_ok in H as (fsum & _ & H). apply bind_ok in H as (final_d & _ & H). apply bind_ok in H as (liq_d & _ & H).
+  apply bind_ok in H as (u12 & _ & H). apply bind_ok in H as (ap & _ & H). apply bind_ok in H as (u13 & Hap & H). apply check_ok in Hap.
+  apply bind_ok in H as (u14 & _ & H). apply bind_ok in H as (lp & _ & H). apply bind_ok in H as (u15 & Hlp & H). apply check_ok in Hlp.
+  apply bind_ok in H as (fsum & Hfsum & H). apply bind_ok in H as (final_d & Hfd & H). apply bind_ok in H as (liq_d & _ & H).
   apply bind_ok in H as (v1 & _ & H). apply bind_ok in H as (q_liq & _ & H).
-  apply bind_ok in H as (v2 & _ & H). apply bind_ok in H as (q_fin & _ & H).
+  apply bind_ok in H as (v2 & Hv2 & H). apply bind_ok in H as (q_fin & Hqf & H).
+  assert (Hqf0 : 0 <= q_fin).
+  { apply uadd_inv in Hfsum as [-> _]. apply usub_inv in Hfd as [-> _].
+    assert (Hfd0 : 0 <= ONE - (LIQUIDATION_INSURANCE_FEE + LIQUIDATION_LIQUIDATOR_FEE)) by (vm_compute; discriminate).
+    assert (Ham0 : 0 <= of_int amount) by (unfold of_int; pose proof ONE_pos; nia).
+    assert (Hap0 : 0 <= ap) by lia.
+    pose proof (calc_value_nonneg _ _ _ _ _ Ham0 Hap0 Hfd0 Hv2) as Hv20.
+    eapply calc_amount_nonneg; [exact Hv20| |exact Hqf]. lia. }
   apply bind_ok in H as (ins_fee & Hif & H). apply bind_ok in H as (u16 & Hif0 & H). apply assert_ok in Hif0.
   apply bind_ok in H as (er0 & Her0 & H).
   apply bind_ok in H as ([i1 la1] & Hloc1 & H). apply bind_ok in H as (b1 & Hb1 & H).
@@ -591,11 +632,19 @@ Proof.
   exists ba1, bl1, er0, q_liq, q_fin, ins_fee, i1, la1, b1, bl2, b1', i2, b2, ba2, b2', i3, la3, b3, ba3, b3', i4, b4, bl3, b4', ins_n, f, ba4, bl5.
   cbv zeta.
   split; [lia|]. split; [exact Hnelb|]. split; [exact Hacca|]. split; [exact Haccl|].
-  split; [exact Her0|]. split; [exact Hif|]. split; [lia|].
+  split; [exact Her0|]. split; [exact Hif|]. split; [lia|]. split; [exact Hqf0|].
   split; [exact Hloc1|]. split; [exact Hb1|]. split; [exact Hdec1|].
   split; [exact Hi2|]. split; [exact Hb2|]. split; [exact Hdec2|].
   split; [exact Hloc3|]. split; [exact Hb3|]. split; [exact Hinc3|].
   split; [exact Hi4|]. split; [exact Hb4|]. split; [exact Hinc4|].
   split; [exact Hinsn'|]. split; [cbn [set_hb_b hb_vault] in Hvle; lia|]. split; [exact Hf|]. split; [exact Hrange|].
   split; [exact Hca|]. split; [exact Hcl|]. repeat split; reflexivity.
+Qed.
+
+Lemma liquidate_facts_ne w liqor liqee ab lb amount ha hl ha' hl' ee er ee3 er3 :
+  liquidate_facts w liqor liqee ab lb amount ha hl ha' hl' ee er ee3 er3 -> ab <> lb.
+Proof.
+  intros (ba1 & bl1 & er0 & q_liq & q_fin & ins_fee & i1 & la1 & b1 & bl2 & b1' & i2 & b2 & ba2 & b2' & i3 & la3 & b3 & ba3 & b3' &
+          i4 & b4 & bl3 & b4' & ins_n & f & ba4 & bl5 & F).
+  cbv zeta in F. destruct F as (_ & Hne & _). exact Hne.
 Qed.
